@@ -128,6 +128,7 @@ func oracleFormat(c Case) error {
 	if v, err := mode.GetVariant(rm); err != nil || v != variant(c.Abridged) {
 		return fmt.Errorf("Detect picked variant %v (err %v)", v, err)
 	}
+	var kept [][]byte
 	for i, n := range c.Lens {
 		got, err := rm.ReadMsg()
 		if err != nil {
@@ -136,9 +137,16 @@ func oracleFormat(c Case) error {
 		if !bytes.Equal(got, payload(c.Seed, i, n)) {
 			return fmt.Errorf("ReadMsg #%d returned %d bytes, want the %d bytes that were framed", i, len(got), n)
 		}
+		kept = append(kept, got)
 	}
 	if got, err := rm.ReadMsg(); err != io.EOF {
 		return fmt.Errorf("end of stream reported as (%d bytes, %v), want io.EOF", len(got), err)
+	}
+	// the sequence as a whole: what was handed out earlier is still what was sent once the later messages were read
+	for i, n := range c.Lens {
+		if !bytes.Equal(kept[i], payload(c.Seed, i, n)) {
+			return fmt.Errorf("message #%d (%d bytes) changed after later messages were read: the received sequence is not the sent one", i, n)
+		}
 	}
 	return nil
 }
@@ -171,7 +179,7 @@ func (stubInf) GetSeqNo() int32      { return 0 }
 func (stubInf) GetServerSalt() int64 { return 2 }
 func (stubInf) GetAuthKey() []byte   { return bytes.Repeat([]byte{0x5a}, 256) }
 
-func oracleTCP(c Case) error {
+func oracleTCP(c Case) (err error) {
 	ln, err := net.Listen("tcp", "127.0.0.1:0")
 	if err != nil {
 		return fmt.Errorf("INFRA: %v", err)
@@ -264,6 +272,7 @@ func oracleTCP(c Case) error {
 	if c.Close == "mid" && c.Code == nil && nFull > 0 {
 		nFull--
 	}
+	var kept []messages.Common
 	for i := 0; i < nFull; i++ {
 		m, err := tr.ReadMsg()
 		if err != nil {
@@ -272,7 +281,15 @@ func oracleTCP(c Case) error {
 		if m.GetMsgID() != int(exps[i].id) || !bytes.Equal(m.GetMsg(), exps[i].body) {
 			return fmt.Errorf("message #%d delivered as msg_id=%d body[%d], sent msg_id=%d body[%d]", i, m.GetMsgID(), len(m.GetMsg()), exps[i].id, len(exps[i].body))
 		}
+		kept = append(kept, m)
 	}
+	defer func() {
+		for i, m := range kept {
+			if err == nil && (m.GetMsgID() != int(exps[i].id) || !bytes.Equal(m.GetMsg(), exps[i].body)) {
+				err = fmt.Errorf("message #%d (%d-byte body) changed after later messages were read: the received sequence is not the sent one", i, len(exps[i].body))
+			}
+		}
+	}()
 	if c.Code != nil {
 		m, err := tr.ReadMsg()
 		var ec transport.ErrCode
